@@ -26,6 +26,7 @@ let rec parse_ops toks = match toks with
   | "cpy" :: h :: g :: r -> OpCopy (ni h, ni g) :: parse_ops r
   | "mov" :: h :: g :: r -> OpMove (ni h, ni g) :: parse_ops r
   | "itest" :: _ :: _ :: _ :: r -> OpNop :: parse_ops r
+  | "rtest" :: _ :: _ :: r -> OpNop :: parse_ops r
   | "uins" :: h :: p :: r -> OpUInsert (ni h, ni p) :: parse_ops r
   | "ures" :: h :: n :: r -> OpUResize (ni h, ni n) :: parse_ops r
   | t :: _ -> failwith ("bad op " ^ t)
@@ -175,6 +176,12 @@ let () =
              else if shape = ShInit then monitor_nf mon0 (List.map parse_obs obs)
              else monitor mon0 (List.map parse_obs obs) in
            let vs = List.map (function None -> "ok" | Some v -> show_viol v) verdicts in
+           (* self-checking scenarios (itest, rtest): the harness compares every step with a plain list and the
+              object counters; "bad<code>@<step>" = an element lost, kept alive, destroyed twice or misplaced *)
+           let vs = if List.length vs <> List.length obs then vs else
+               List.map2 (fun t v ->
+                   if v = "ok" && String.length t >= 3 && String.sub t 0 3 = "bad"
+                   then "V:array-scenario-failed:" ^ List.hd (String.split_on_char '|' t) else v) obs vs in
            let all_ok = List.for_all (fun v -> v = "ok") vs && List.length vs = List.length obs in
            let vs = if not all_ok then vs else
                match e with
